@@ -210,6 +210,24 @@ class Recorder:
         return [self.td, self.tl, tc, tdc, self.tb, self.tub]
 
 
+def correspondence(ctx, name, cases, chunk=70, workers=14):
+    """ctx.correspondence over small chunks run side by side: elaborating
+    the byte-string literals of a case file costs Coq ~50us per byte, so the
+    default 400-case shards of these cases take a minute each."""
+    from concurrent.futures import ThreadPoolExecutor
+    # the few huge cases first, one per file
+    big = [c for c in cases if len(c[0]) > 40000]
+    rest = [c for c in cases if len(c[0]) <= 40000]
+    chunks = [[c] for c in big] + \
+        [rest[k:k + chunk] for k in range(0, len(rest), chunk)]
+    with ThreadPoolExecutor(max_workers=workers) as pool:
+        jobs = [pool.submit(ctx.correspondence, "%s%03d" % (name, n), IMPORTS,
+                            part, lambda p: p)
+                for n, part in enumerate(chunks)]
+        for job in jobs:
+            job.result()
+
+
 def tbl_lit(table):
     seen, out = set(), []
     for key, val in table:
@@ -451,7 +469,7 @@ def run(ctx):
                                 "text": repr(text)[:200]}))
             ctx.count("hidden:%s-secret" % type(secret).__name__)
     phase("hidden-impl")
-    ctx.correspondence("hidden", IMPORTS, cases, lambda p: p)
+    correspondence(ctx, "hidden", cases, chunk=12)
     phase("hidden-coq")
     for term, exp, payload in cases:
         ctx.case(("hidden", payload["secret"], payload["text"]), True)
@@ -520,7 +538,8 @@ def run(ctx):
         add_history([rng.choice("WDHvfntgexS") for _ in range(n)])
     # a few with large data
     for size in ([600, 5000] if ctx.quick else [300, 600, 1200, 2500, 5000]):
-        for cps in cps_names:
+        for cps in ([rng.choice(cps_names)] if ctx.quick and size > 1000
+                    else cps_names):
             secret = rnd_secret(rng)
             big = rnd_dict(rng, size)
             raw = make_value(json.dumps(big).encode(), secret, cps)
@@ -529,7 +548,7 @@ def run(ctx):
                 [("H",), ("L", raw, "valid"), ("D",), ("H",)]))
             ctx.count("hist:large")
     phase("history-impl")
-    ctx.correspondence("history", IMPORTS, cases, lambda p: p)
+    correspondence(ctx, "history", cases)
     phase("history-coq")
     for term, exp, payload in cases:
         ctx.case(("hist", payload["compress"], repr(payload["config"]),
